@@ -27,7 +27,7 @@ RULE = ("Radius / KNearest x {cityblock, chebyshev, sqeuclidean, euclidean} x Ep
         "on a query-row distance in half of the cases; k in 1..rows; far queries force empty neighbourhoods; "
         "no_nhood_prob_of_arm with zero entries. Non-trivial = query with a row exactly on the boundary / a tie at rank k / an "
         "empty neighbourhood / a partial_fit row inside the neighbourhood; distinct = (policy, metric, lp, dims, feature, sizes)")
-BUDGET = {"quick": {"cases": 320, "shards": 8}, "thorough": {"cases": 20000, "shards": 16, "wall_s": 2400}}
+BUDGET = {"quick": {"cases": 640, "shards": 16}, "thorough": {"cases": 20000, "shards": 16, "wall_s": 3600}}
 MIN = {"quick": {"evaluations": 2000, "nontrivial": 150}, "thorough": {"evaluations": 100000, "nontrivial": 8000}}
 ASSUMPTIONS = ["integer-grid contexts: distances exactly computable; euclidean decided on squared distances",
                "the reference trusts the learning-policy code itself (covered by C01 / C02)",
@@ -117,7 +117,12 @@ def run_case(rs, ctx):
             kk = int(rs.integers(1, n_arms))
             for i in rs.permutation(n_arms)[:kk]:
                 probs[int(i)] = 1.0 / kk
-        npd = {"kind": "radius", "radius": nhood.radius_value(metric, key), "metric": metric, "probs": probs}
+        rad_ = nhood.radius_value(metric, key)
+        if boundary and key >= 1 and rs.integers(3) == 0:
+            # a hair (2^-40 relative) below a row distance: rows at exactly that distance are outside
+            rad_, key = rad_ * (1.0 - 2.0 ** -40), key - Fraction(1, 2)
+            ctx.count("radius_a_hair_below_a_row_distance")
+        npd = {"kind": "radius", "radius": rad_, "metric": metric, "probs": probs}
     else:
         k = int(rs.integers(1, sizes[0] + 1))
         npd = {"kind": "knn", "k": k, "metric": metric}
